@@ -10,7 +10,7 @@ import asyncstdlib as A
 
 from ..loop import CTX, run_sync
 from ..tools import decode
-from ..probes import PLANNED, PLANNED_NAMES
+from ..probes import PLANNED, PLANNED_NAMES as _PLANNED_NAMES
 
 ID = "C10"
 LEVEL = "exploration"
@@ -36,6 +36,7 @@ RULE += (' Also: re-entrant histories in which a run clears the cache it is comp
 RULE += (' Also: transient failures in re-entrant histories (the first-started run for an argument fails after its warm-up call succeeded).')
 RULE += (' Also: a cache stacked on a cache against two functools layers (clears of either layer, direct calls of the inner one).')
 RULE += (' Also: a keyword of one call as positional (name, value) tuple of another; keyword order permutations.')
+RULE += (' Also: cached functions failing with BaseExceptions that are no Exceptions (aborts, CancelledError): a counted miss that caches nothing.')
 ASSUMPTIONS = ["functools.lru_cache (C implementation of the running 3.12 interpreter) is the reference",
                "cache_discard has no stdlib twin: reference is the cross-validated model"]
 EXHAUSTIVE_SUBSPACES = 'all histories of length <= 4 (thorough: 5) over 7 operations for maxsize 1 and 2'
@@ -58,6 +59,16 @@ def rand_pattern(rng, small=False):
         args = [["L", 1]]  # unhashable
     return [args, kwargs]
 
+
+class PlannedAbort(BaseException):
+    """A failure of the cached function that is NOT an Exception (an abort, a shutdown request raised in it)."""
+
+
+# what the cached function fails with: also BaseExceptions that are no Exceptions - a failed call is a counted miss and
+# caches nothing, whatever it failed with
+PLANNED = dict(PLANNED, Abort=PlannedAbort, CancelledError=__import__("asyncio").CancelledError,
+               KeyboardInterruptLike=type("PlannedInterrupt", (KeyboardInterrupt,), {}))
+PLANNED_NAMES = list(_PLANNED_NAMES) + ["Abort", "CancelledError", "KeyboardInterruptLike", "Abort"]
 
 ENUM_PATTERNS = [[[0], []], [[1], []], [[["f", "1.0"]], []], [[], [["x", 0]]]]
 
